@@ -3,3 +3,4 @@ pub mod ops;
 pub mod reg;
 pub mod runner;
 pub mod crash;
+pub mod deser;
